@@ -219,6 +219,23 @@ func c17Run(i int64, seed uint64, r *fw.Rec) {
 		return
 	}
 	pat := g.alt(0)
+	if g.r.Intn(8) == 0 {
+		// the same text matched through different groups: an assertion decides
+		// which alternative (and therefore which group) takes each occurrence
+		t := g.r.Pick("a", "b", "ab", "a+", "[ab]")
+		g.groups = 2
+		g.tags["same-text-different-groups"] = true
+		switch g.r.Intn(4) {
+		case 0:
+			pat = "^(" + t + ")|(" + t + ")"
+		case 1:
+			pat = "(" + t + ")$|(" + t + ")"
+		case 2:
+			pat = "\\b(" + t + ")|(" + t + ")"
+		default:
+			pat = "(" + t + ")(?:c)|(" + t + ")"
+		}
+	}
 	flags := rr.Pick("", "", "i", "m", "s", "im", "is", "ms", "ims")
 	s := g.subject()
 	goPat := pat
